@@ -49,7 +49,9 @@ if ISO:
                            "MISSED": "quiet"}[res]
                     if p.returncode not in (0, 1):
                         res = "INFRASTRUCTURE-ERROR rc=%d" % p.returncode
-                print("%-10s %-4s seed=%s rc=%d %s | %s" % (sid, prop, seed, p.returncode, res, (v[0] if v else (p.stdout.strip().splitlines() or ["?"])[-1])[:160]), flush=True)
+                why = [l for l in (p.stdout + "\n" + p.stderr).splitlines() if l.startswith("BROKEN")]
+                print("%-10s %-4s seed=%s rc=%d %s | %s%s" % (sid, prop, seed, p.returncode, res, (v[0] if v else (p.stdout.strip().splitlines() or ["?"])[-1])[:160],
+                                                            (" | " + why[0][:220]) if why else ""), flush=True)
         finally:
             subprocess.run(["git", "-C", WT, "checkout", "--", "."])
     subprocess.run(["git", "-C", "/repo", "worktree", "remove", "--force", WT], capture_output=True)
